@@ -1155,7 +1155,8 @@ theorem verifyDefaultRrset_insecure_suffix (env : Env) (sub : Query → Res) (q 
     (sigs : List Rec) (idx : Option Nat)
     (h : verifyDefaultRrset env sub q gid sigs = .done .insecure idx) :
     (∃ zone, zone <:+ gid.name ∧ fetchDs sub zone = .err .insecure) ∨
-    (∃ (s : Rec) (m : Msg) (k : Rec), s ∈ sigs ∧ s.signer <:+ gid.name ∧ sub ⟨s.signer, tDNSKEY⟩ = .ok m ∧
+    (∃ (s : Rec) (m : Msg) (k : Rec), s ∈ sigs ∧ s.signer <:+ gid.name ∧
+      (gid.rtype = tDS → gid.name ≠ [] → s.signer ≠ gid.name) ∧ sub ⟨s.signer, tDNSKEY⟩ = .ok m ∧
       k ∈ m.an ∧ k.rtype = tDNSKEY ∧ k.name = s.signer ∧ k.proof = .insecure) := by
   unfold verifyDefaultRrset at h
   split at h
@@ -1179,9 +1180,39 @@ theorem verifyDefaultRrset_insecure_suffix (env : Env) (sub : Query → Res) (q 
     unfold sigCands at hc
     obtain ⟨hc', hcond⟩ := List.mem_filter.mp hc
     have := List.mem_zipIdx_iff_getElem?.mp hc'
-    have hz : zoneOf s.signer gid.name = true := by
-      simp only [Bool.and_eq_true] at hcond
-      exact hcond.1
-    exact ⟨s, m, k, List.mem_of_getElem? (by simpa using this), zoneOf_suffix hz, hm, hk, hkt, hkn, hkp⟩
+    simp only [Bool.and_eq_true] at hcond
+    have hz : zoneOf s.signer gid.name = true := hcond.1.2
+    have hds : gid.rtype = tDS → gid.name ≠ [] → s.signer ≠ gid.name := by
+      intro ht hne heq
+      have h1 := hcond.1.1
+      cases hn : gid.name with
+      | nil => exact hne hn
+      | cons a t => simp [ht, heq, hn, DName.isRoot] at h1
+    exact ⟨s, m, k, List.mem_of_getElem? (by simpa using this), zoneOf_suffix hz, hds, hm, hk, hkt, hkn, hkp⟩
+
+/-- a DS RRset is never Insecure for lack of RRSIGs (it is then Bogus): Insecure is always inherited through an RRSIG,
+whose signer is a proper ancestor of the (non-root) owner (fix 4f49cf9) -/
+theorem verifyDefaultRrset_insecure_ds (env : Env) (sub : Query → Res) (q : Query) (gid : GroupId)
+    (sigs : List Rec) (idx : Option Nat) (ht : gid.rtype = tDS)
+    (h : verifyDefaultRrset env sub q gid sigs = .done .insecure idx) :
+    ∃ (s : Rec) (m : Msg) (k : Rec), s ∈ sigs ∧ s.signer <:+ gid.name ∧ (gid.name ≠ [] → s.signer ≠ gid.name) ∧
+      sub ⟨s.signer, tDNSKEY⟩ = .ok m ∧ k ∈ m.an ∧ k.rtype = tDNSKEY ∧ k.name = s.signer ∧ k.proof = .insecure := by
+  unfold verifyDefaultRrset at h
+  split at h
+  · rw [if_neg (by simp [ht])] at h
+    simp at h
+  · obtain ⟨s, i, m, k, hc, hm, hk, hkt, hkn, hkp⟩ := selectOk_insecure_mem _ _ _ _ _ h
+    unfold sigCands at hc
+    obtain ⟨hc', hcond⟩ := List.mem_filter.mp hc
+    have := List.mem_zipIdx_iff_getElem?.mp hc'
+    simp only [Bool.and_eq_true] at hcond
+    have hz : zoneOf s.signer gid.name = true := hcond.1.2
+    have hds : gid.name ≠ [] → s.signer ≠ gid.name := by
+      intro hne heq
+      have h1 := hcond.1.1
+      cases hn : gid.name with
+      | nil => exact hne hn
+      | cons a t => simp [ht, heq, hn, DName.isRoot] at h1
+    exact ⟨s, m, k, List.mem_of_getElem? (by simpa using this), zoneOf_suffix hz, hds, hm, hk, hkt, hkn, hkp⟩
 
 end HickoryVerif.Chain
